@@ -268,6 +268,8 @@ impl AcctCase {
                 cmd.argv.push("/dev/stdin".into());
                 cmd.stdin = Some(self.input.clone());
                 cmd.stdin_pipe = true;
+                // the shim applies the R plan to every descriptor that names fd 0's pipe
+                cmd.rplan = v.rplan.clone();
             } else {
                 cmd.argv.push("input.dat".into());
                 cmd.files.push(NamedFile {
@@ -400,6 +402,10 @@ impl AcctCase {
                 v.env_mask != 0 && self.op.needs_account(),
             );
             rep.probe("input_through_pipe", v.pipe && self.op.has_input());
+            rep.probe(
+                "dev_stdin_pipe_delivered_in_pieces",
+                v.pipe && !v.stdin && self.op.has_input() && o.io.iter().filter(|e| e.tag == 'R').count() >= 2,
+            );
             rep.probe("stdin_plan_variant_run", v.stdin && !v.rplan.is_empty());
             hist.push(json!({
                 "variant": vi, "argv": cmd.argv.iter().map(|a| a.chars().take(120).collect::<String>()).collect::<Vec<_>>(),
@@ -1016,7 +1022,7 @@ pub fn gen_acct_case(rng: &mut Rng) -> AcctCase {
                 variants.push(Variant {
                     env_mask: 0,
                     stdin,
-                    rplan: if stdin { benign_plan(rng, n) } else { vec![] },
+                    rplan: if stdin || rng.coin() { benign_plan(rng, n) } else { vec![] },
                     wplan: vec![],
                     pipe: true,
                 });
